@@ -237,7 +237,11 @@ def subchecks(tier, seed):
             shard_depth=2, bounds={"formulas": "those using A", "followup_dtype_of_A": ["category (training levels)", "category (present levels only)", "category (reversed order)"],
                                    "max_selection_length": 2}),
         Sub("histories", drv_hist, {"formulas": fs, "trainings": tr[:1] if quick else tr[:2], "outputs": ["pandas"] if quick else ["pandas", "sparse"],
-                                    "D": 2 if quick else 3},
-            shard_depth=2, bounds={"formulas": len(fs), "training_sets": 1 if quick else 2, "max_events": 2 if quick else 3,
+                                    "D": 2},
+            shard_depth=2, bounds={"formulas": len(fs), "training_sets": 1 if quick else 2, "max_events": 2,
                                    "event_menu": "6 apply(selection) + 3 apply via model_matrix + pickle + update"}),
-    ]
+    ] + ([] if quick else [
+        Sub("histories-depth3", drv_hist, {"formulas": fs[::3], "trainings": tr[:1], "outputs": ["pandas"], "D": 3},
+            shard_depth=2, bounds={"formulas": "every third formula (%d)" % len(fs[::3]), "training_sets": 1, "max_events": 3,
+                                   "event_menu": "6 apply(selection) + 3 apply via model_matrix + pickle + update"}),
+    ])
